@@ -491,6 +491,8 @@ def main(tier):
     rule_D(ck, units)
     rule_E(ck, units)
     rule_F(ck, units)
+    import c10
+    c10.rule_G(ck, units, floor=1, only=('amgcl/io/',))     # a damaged file is reported by a catchable exception, also from the parallel row-sorting loop (shared with C10)
     import c11
     c11.rule_I(ck, units, floor=4, only=('amgcl/io/',))    # row_beg / row_end = -1 mean 'whole file'; an empty range [k, 0) is not the whole file (shared with C11)
     ck.assumptions += ['the round trip itself and row-range slices being equal to the full read are not decided',
